@@ -7,6 +7,7 @@ import (
 	"verif/h/impl"
 	"verif/h/run"
 	"verif/h/spec"
+	"verif/h/suite"
 )
 
 func newProduct(id, tier string, needModel bool, o oracleFn, extra ...gen.Ladder) *productJob {
@@ -191,6 +192,17 @@ func init() {
 		},
 		Bounds: productBounds("C01"),
 		New:    func(tier string) run.Job { return newProduct("C01", tier, true, c01Oracle) },
+		Finish: func(tier string, total *run.Ctx, cov map[string]interface{}) {
+			// the model is replayed on the repository's own pinned expectations (never a VIOLATION by itself)
+			if r, err := suite.Replay(repoDir); err != nil {
+				cov["model_suite_agreement"] = "not available: " + err.Error()
+			} else {
+				cov["model_suite_agreement"] = fmt.Sprintf("%d/%d reconstructable cases of test_jsonpath_test.go reproduced by the model (%d skipped: custom validators/helpers; %d open cases)", r.Agree, r.Total-r.Skipped-r.Unspecified, r.Skipped, r.Unspecified)
+				if len(r.Disagreements) > 0 {
+					cov["model_suite_disagreements"] = r.Disagreements
+				}
+			}
+		},
 		Replay: func(cs map[string]interface{}) (bool, string) {
 			return replayProduct(cs, func(path string, p *gen.Path, doc interface{}, env *impl.Env) (bool, string) {
 				if p == nil {
